@@ -28,6 +28,19 @@ Theorem c11_theta_roundtrip_compressed :
   forall sh c, c_wf sh c -> exists bs, c_serialize_compressed c = Ok bs /\ c_deserialize sh bs = Ok c.
 Proof. exact roundtrip_compressed. Qed.
 
+(* the round trips also apply to everything the (repaired) reader returns: whatever it accepts is
+   well-formed -- in particular an image flagged EMPTY that carries entries is rejected
+   (known_findings.d/theta-v4-empty-flag-with-entries.json) *)
+Theorem c11_theta_deserialized_wf :
+  forall sh bs c, sh < 65536 -> bytes_lt bs -> c_deserialize sh bs = Ok c -> c_wf sh c.
+Proof. exact deserialize_ok_wf. Qed.
+
+Theorem c11_theta_deserialized_roundtrips :
+  forall sh bs c, sh < 65536 -> bytes_lt bs -> c_deserialize sh bs = Ok c ->
+  c_deserialize sh (c_serialize c) = Ok c /\
+  exists bs', c_serialize_compressed c = Ok bs' /\ c_deserialize sh bs' = Ok c.
+Proof. exact deserialized_roundtrips. Qed.
+
 (* reachable_wf: whatever compact(ordered) returns for a sketch reached by any history of
    update/trim/reset is well-formed, for every configuration and EVERY sampling probability: the starting
    theta `(2^63 as f64 * p) as u64` is at most 2^63-1 for every f64 p < 1 (Flocq), and at least 1 in the
